@@ -148,7 +148,7 @@ type seqRun struct {
 	aborted  bool
 	// shape
 	nTouch, nUpd, nRev, nLoad, pinMattered, judged, edge, late, lateRepinned, ticks int
-	maxDt                                                                        time.Duration
+	maxDt                                                                           time.Duration
 }
 
 func (s *seqRun) logf(f string, a ...any) {
